@@ -27,6 +27,7 @@ type Config struct {
 	RingMaxSz  uint
 	AckMode    uint
 	Subscribe  bool
+	PreDBs     int // databases created up front (engine mode); default 1
 }
 
 func (c Config) WithDefaults() Config {
@@ -62,6 +63,9 @@ func (c Config) WithDefaults() Config {
 	}
 	if c.RingSz == 0 {
 		c.RingSz = 4096
+	}
+	if c.PreDBs == 0 {
+		c.PreDBs = 1
 	}
 	if c.RingMaxSz == 0 {
 		c.RingMaxSz = 1 << 20
